@@ -1,0 +1,40 @@
+//go:build verif
+// +build verif
+
+package lcm
+
+// Hooks for the verification harness in /verif. Compiled only with -tags verif.
+
+// VerifEvent is the exported view of one recorded history event.
+type VerifEvent struct {
+	Type   uint64 // 0 read, 1 write
+	Result uint64 // 0 invoked, 1 completed, 2 failed
+	ID     uint64
+	Value  uint64
+}
+
+// VerifSchedule runs one scheduling step of the coordinator (what mainLoop does
+// every `wait` seconds).
+func (c *Coordinator) VerifSchedule() { c.scheduleProcesses() }
+
+// VerifEvents returns a copy of the recorded history.
+func (c *Coordinator) VerifEvents() []VerifEvent {
+	c.mu.Lock()
+	defer c.mu.Unlock()
+	r := make([]VerifEvent, 0, len(c.events))
+	for _, e := range c.events {
+		r = append(r, VerifEvent{Type: e.eventType, Result: e.eventResult, ID: e.id, Value: e.value})
+	}
+	return r
+}
+
+// VerifBusy returns the number of processes with an outstanding operation.
+func (c *Coordinator) VerifBusy() int {
+	n := 0
+	for _, p := range c.processes {
+		if !p.isIdle() {
+			n++
+		}
+	}
+	return n
+}
